@@ -3,6 +3,7 @@
 from __future__ import annotations
 
 import gc
+import os
 import itertools
 
 import numpy as np
@@ -152,7 +153,7 @@ def geom_label(mask) -> str:
 
 
 def _strip(tag: str) -> str:
-    for pre in ("final-", "after-dump-", "after-reopen-", "after-bad-dump-", "tiny-state-", "tiny-after-dump-", "state-"):
+    for pre in ("final-", "after-debris-", "after-dump-", "after-reopen-", "after-bad-dump-", "tiny-state-", "tiny-after-dump-", "state-"):
         if tag.startswith(pre):
             return tag[len(pre):]
     return tag
@@ -269,6 +270,14 @@ def body_history(data) -> Outcome:
                         ok, got = _call(out, "get_from_index", n, glabel, lambda: stores[n].get_from_index(i))
                         if ok and _leaf(got) != _leaf(ref.blocks[e]):
                             out.fail(f"get_from_index:{n}:{glabel}", f"index {i}: got {_leaf(got)} want {_leaf(ref.blocks[e])}")
+            elif kind == "debris":
+                # what a writer that died inside dump() leaves behind: the temporary file of an element
+                if "file_array" in names and os.path.isdir(folders["file_array"]):
+                    size = int(np.prod(ref.ext_shape)) if ref.ext_shape else 1
+                    with open(os.path.join(folders["file_array"], f".__{op['i'] % size}__.pickle.4242.tmp"), "wb") as fh:
+                        fh.write(b"\x80\x05partial")
+                    out.labels.append("debris-of-an-interrupted-dump")
+                    step_check({n: stores[n] for n in names}, "after-debris")
             elif kind == "reopen":
                 for n in names:
                     ok, _ = _call(out, "persist", n, glabel, lambda: stores[n].persist())
@@ -338,13 +347,16 @@ def histories(draw):
     n_ops = draw(st.integers(1, 14))
     ops = []
     for _ in range(n_ops):
-        kind = draw(st.sampled_from(["dump", "dump", "dump", "get", "get", "get", "index", "reopen", "bad_get", "bad_dump"]))
+        kind = draw(st.sampled_from(["dump", "dump", "dump", "get", "get", "get", "index", "reopen", "bad_get", "bad_dump",
+                                     "dump", "get", "debris"]))  # fmt: skip
         if kind == "dump":
             ops.append({"op": "dump", "key": [draw(_axis_key(n)) for n in ext], "kind": draw(st.sampled_from(["list", "ndarray", "none"]))})
         elif kind == "get":
             ops.append({"op": "get", "key": [draw(_axis_key(n)) for n in sizes]})
         elif kind == "index":
             ops.append({"op": "index", "i": draw(st.integers(0, 26))})
+        elif kind == "debris":
+            ops.append({"op": "debris", "i": draw(st.integers(0, 26))})
         elif kind == "reopen":
             ops.append({"op": "reopen"})
         else:
